@@ -195,6 +195,22 @@ PROPS["C16"] = dict(
     stubs=["envelope sealer", "keystore writer", "tamper injector", "namespace (SimFS) for the CLI"],
 )
 
+PROPS["C17"] = dict(
+    engine="storesim", level="exploration", quick=1500, thorough=80000,
+    rule=("one evaluation = one seeded history of store operations (set of typed values incl. strings/arrays on both sides of 0x800 "
+          "bytes, delete, table rewrite, header flip) executed by the stub store writer as a log of device writes (copy-on-write "
+          "key tables: new object with sequence+1, registration = commit, optional release of the old object), decoded by the real "
+          "reader at the end and at every crash point (history cut between any two device writes): pre-commit cuts must decode to "
+          "the old tree, post-commit cuts to the new one. distinct = (cut class, number of key tables, tree depth, value types) "
+          "tuples; non-trivial = the expected tree is not empty."),
+    expected_probes=["store.file_objects", "store.two_versions_of_a_table_registered", "store.stale_header_slot_invalid", "store.cuts_all",
+                     "store.tables_1", "store.tables_4", "store.type_int", "store.type_float", "store.type_str", "store.type_bytes", "store.type_bool"],
+    assumptions=["no public specification: the stub follows the structures the reader cites and is anchored on the two fixtures (evidence 'anchors'); "
+                 "independence of oracle and reader is weakest here", "checksums are written as zero (the reader does not verify them)",
+                 "additional object tables and replay-log entries are not generated"],
+    stubs=["store writer peer (device-write log with crash cuts)", "storage (SimFile/SimHandle)"],
+)
+
 NOT_BUILT_REASON = "check not built yet in this session (see DESIGN.md section 11 for the build order); not claimed until its engine exists"
 
 NOT_APPLICABLE = {
@@ -209,6 +225,10 @@ _DISK_NOTE = ("trusted base: the writer stub's reading of the format, the refere
 _DISK_TECH = "deterministic simulation (stub writer peer + simulated storage + reference model oracle), seeded search, ddmin replay"
 
 MANIFEST_TEXT = {
+    "C17": dict(text="seeded deterministic simulation of a copy-on-write store writer with crash points between device writes; key/value tree "
+                     "model compared after every step and at every cut; sampled",
+                design_ref="DESIGN.md 4/C17", note="trusted base: the stub writer's reading of an undocumented format (fixture-anchored by an independent decoder)",
+                technique="deterministic simulation (stub store writer as a device-write log, crash-point cuts, tree reference model), seeded search, ddmin replay"),
     "C15": dict(text="deterministic simulation against a stub sealer: fault-free round trips over the cipher/MAC/KDF matrix and enumerated "
                      "single-byte tamper faults over every encrypted field; oracle: exact entries / raises with attr unchanged",
                 design_ref="DESIGN.md 4/C15", note="complete over the enumerated (position x mask) grid of the sampled configurations; sealer shares provenance with the reader (fixture-anchored)",
